@@ -37,3 +37,36 @@ func ZZ_C18_verifyPSS_refuses_signature_not_below_modulus() {
 		zzAssert(new(big.Int).SetBytes(sig).Cmp(pub.N) < 0, "an accepted signature is below the modulus (as crypto/rsa requires)")
 	}
 }
+
+// C18: for moduli whose bit length is 1 mod 8 the encoded message has one octet less than the
+// modulus: the verifier must refuse a signature whose s^e mod N does not fit emLen octets (a
+// non-zero leading octet), as crypto/rsa does - whatever the encoding check would say about the
+// rest.  The exponentiation returns an arbitrary value below N (set "rsasym"), the encoding check
+// accepts; 17-bit toy modulus, all bytes of s^e mod N symbolic.
+
+var zzEncryptResult *big.Int
+
+//zz:replace blindsign/blindrsa/internal/common.encrypt set=rsasym
+func zzStubEncryptSym(c *big.Int, N *big.Int, e *big.Int, m *big.Int) *big.Int { return c.Set(zzEncryptResult) }
+
+//zz:replace blindsign/blindrsa/internal/common.emsaPSSVerify set=rsasym
+func zzStubEmsaPSSVerifySym(mHash, em []byte, emBits, sLen int, hash interface{}) error { return nil }
+
+//zz: prop=C18 tier=quick backend=bv use=rsasym timeout=120 maxpaths=2000
+func ZZ_C18_verifyPSS_refuses_encoded_message_longer_than_emLen() {
+	if !zzSymbolic() {
+		zzModelOnly()
+	}
+	crypto.RegisterHash(crypto.SHA256, func() hash.Hash { return &zzHash{} })
+	n := big.NewInt(1<<16 + 1027) // 17 bits: emBits = 16, emLen = 2, modulus size 3
+	pub := &keys.BigPublicKey{N: n, E: big.NewInt(17)}
+	mb := make([]byte, 3)
+	zzFill("m", mb)
+	zzEncryptResult = new(big.Int).SetBytes(mb)
+	zzAssumeNote(zzEncryptResult.Cmp(n) < 0, "s^e mod N is below N")
+	sig := []byte{0, 0, 5}
+	err := verifyPSS(pub, crypto.SHA256, make([]byte, 32), sig, &rsa.PSSOptions{SaltLength: 32})
+	if err == nil {
+		zzAssert(mb[0] == 0, "an accepted signature decrypts to an integer of at most emLen octets (leading octet zero)")
+	}
+}
